@@ -806,7 +806,7 @@ def classify(cls, key, old, new, spec_ctrl=None):
         # dictionary path wrote the tree in order until fb98e708
         if key == "condition" and isinstance(old, str) and isinstance(new, str) and old.split() == new.split():
             return "rule-condition-mixed-and-or-regrouped"
-        return "control-%s-%s" % (cls.split(":")[1], key)
+        return "control-%s-%s" % (cls.split(":")[1] if ":" in cls else "list", key)
     return "from_dict-%s-%s" % (cls, key)
 
 
